@@ -1801,7 +1801,7 @@ class Translator:
             if m.group(1) == 'memset':
                 return [ind + "IR_MEMSET(%d, %s, %s, %s);" % (site, a[0], a[1], a[2])]
             return [ind + "IR_%s(%d, %s, %s, %s);" % (m.group(1).upper(), site, a[0], a[1], a[2])]
-        m = re.match(r'^llvm\.(fshl|fshr|bswap|ctlz|cttz|ctpop|umin|umax|smin|smax|abs|umul\.with\.overflow|uadd\.with\.overflow|usub\.with\.overflow|smul\.with\.overflow|sadd\.with\.overflow|ssub\.with\.overflow|uadd\.sat|usub\.sat)\.i(\d+)$', name)
+        m = re.match(r'^llvm\.(fshl|fshr|bswap|bitreverse|ctlz|cttz|ctpop|umin|umax|smin|smax|abs|umul\.with\.overflow|uadd\.with\.overflow|usub\.with\.overflow|smul\.with\.overflow|sadd\.with\.overflow|ssub\.with\.overflow|uadd\.sat|usub\.sat)\.i(\d+)$', name)
         if m:
             opn, w = m.group(1), int(m.group(2))
             if w not in (8, 16, 32, 64):
@@ -1818,6 +1818,8 @@ class Translator:
                 return [ind + "%s = %s;" % (d, e)]
             if opn == 'bswap':
                 return [ind + "%s = ir_bswap%d(%s);" % (d, w, a[0])]
+            if opn == 'bitreverse':
+                return [ind + "%s = (%s)ir_bitreverse((uint64_t)%s, %d);" % (d, ct, a[0], w)]
             if opn in ('ctlz', 'cttz', 'ctpop'):
                 return [ind + "%s = (%s)ir_%s(%s, %d);" % (d, ct, opn, "(uint64_t)" + a[0], w)]
             if opn in ('umin', 'umax'):
@@ -1945,7 +1947,7 @@ class Translator:
 
 
 FASTMATH = {'fast', 'nnan', 'ninf', 'nsz', 'arcp', 'contract', 'afn', 'reassoc'}
-LIBC_MEM = {'memcpy', 'memmove', 'memset', 'memcmp', 'strlen'}
+LIBC_MEM = {'memcpy', 'memmove', 'memset', 'memcmp', 'bcmp', 'strlen'}
 
 
 def translate(ir_text, entries, prefix="ir_", site_base=0):
